@@ -13,6 +13,32 @@ theorem isWord_lbrace : isWord '{' = false := by decide
 theorem isWord_rbrace : isWord '}' = false := by decide
 theorem isWord_dot : isWord '.' = false := by decide
 theorem isSpace_rbrace : isSpaceChar '}' = false := by decide
+theorem isName_rbrace : isNameChar '}' = false := by decide
+theorem isName_dot : isNameChar '.' = false := by decide
+
+theorem nameB_all (w : List Char) (h : nameB w = true) : w.all isNameChar = true := by
+  simp only [nameB, Bool.and_eq_true, List.all_eq_true] at h ⊢
+  exact fun c hc => (h.2 c hc).1
+
+theorem nameB_nonempty (w : List Char) (h : nameB w = true) : w.isEmpty = false := by
+  simp only [nameB, Bool.and_eq_true, Bool.not_eq_true'] at h; exact h.1
+
+theorem nameB_dollar_free (w : List Char) (h : nameB w = true) : w.all (· != '$') = true := by
+  simp only [nameB, Bool.and_eq_true, List.all_eq_true] at h ⊢
+  exact fun c hc => (h.2 c hc).2
+
+theorem dropWhile_space_name (w r : List Char) (hw : nameB w = true) :
+    (w ++ r).dropWhile isSpaceChar = w ++ r := by
+  cases w with
+  | nil => simp [nameB] at hw
+  | cons a w =>
+    have ha := nameB_all _ hw
+    simp only [List.all_cons, Bool.and_eq_true] at ha
+    have : isSpaceChar a = false := by
+      have := ha.1
+      simp only [isNameChar, Bool.and_eq_true, Bool.not_eq_true'] at this
+      exact this.1.1.1
+    simp [List.dropWhile, this]
 
 theorem not_space_of_word (c : Char) (h : isWord c = true) : isSpaceChar c = false := by
   cases hs : isSpaceChar c with
@@ -62,22 +88,22 @@ theorem wordB_nonempty (w : List Char) (h : wordB w = true) : w.isEmpty = false 
 
 /-! ## `matchRef` on a spelled reference -/
 
-theorem matchRef_plain (n rest : List Char) (hn : wordB n = true) :
+theorem matchRef_plain (n rest : List Char) (hn : nameB n = true) :
     matchRef (n ++ '}' :: rest) = some (String.ofList n, none, rest) := by
-  have h1 := dropWhile_space_word n ('}' :: rest) hn
-  have h2 := takeWhile_append_stop n '}' rest (wordB_all n hn) isWord_rbrace
-  have h3 := dropWhile_append_stop n '}' rest (wordB_all n hn) isWord_rbrace
-  simp only [matchRef, h1, h2, h3, wordB_nonempty n hn, Bool.false_eq_true, if_false, List.dropWhile, isSpace_rbrace]
+  have h1 := dropWhile_space_name n ('}' :: rest) hn
+  have h2 := takeWhile_append_stop n '}' rest (nameB_all n hn) isName_rbrace
+  have h3 := dropWhile_append_stop n '}' rest (nameB_all n hn) isName_rbrace
+  simp only [matchRef, h1, h2, h3, nameB_nonempty n hn, Bool.false_eq_true, if_false, List.dropWhile, isSpace_rbrace]
   rfl
 
-theorem matchRef_fmt (n f rest : List Char) (hn : wordB n = true) (hf : wordB f = true) :
+theorem matchRef_fmt (n f rest : List Char) (hn : nameB n = true) (hf : wordB f = true) :
     matchRef (n ++ '.' :: (f ++ '}' :: rest)) = some (String.ofList n, some (String.ofList f), rest) := by
-  have h1 := dropWhile_space_word n ('.' :: (f ++ '}' :: rest)) hn
-  have h2 := takeWhile_append_stop n '.' (f ++ '}' :: rest) (wordB_all n hn) isWord_dot
-  have h3 := dropWhile_append_stop n '.' (f ++ '}' :: rest) (wordB_all n hn) isWord_dot
+  have h1 := dropWhile_space_name n ('.' :: (f ++ '}' :: rest)) hn
+  have h2 := takeWhile_append_stop n '.' (f ++ '}' :: rest) (nameB_all n hn) isName_dot
+  have h3 := dropWhile_append_stop n '.' (f ++ '}' :: rest) (nameB_all n hn) isName_dot
   have h4 := takeWhile_append_stop f '}' rest (wordB_all f hf) isWord_rbrace
   have h5 := dropWhile_append_stop f '}' rest (wordB_all f hf) isWord_rbrace
-  simp only [matchRef, h1, h2, h3, h4, h5, wordB_nonempty n hn, wordB_nonempty f hf, Bool.false_eq_true, if_false,
+  simp only [matchRef, h1, h2, h3, h4, h5, nameB_nonempty n hn, wordB_nonempty f hf, Bool.false_eq_true, if_false,
     List.dropWhile, isSpace_rbrace]
 
 /-! ## first pass: nothing to do when no `$` is followed by a word character -/
@@ -160,7 +186,7 @@ theorem ndw_render : ∀ (items : List FItem), wfItems items = true → ndw (ren
       exact ih h.2
     | ref n fm =>
       simp only [wfItems, Bool.and_eq_true] at h
-      have hn := word_dollar_free n (wordB_all n h.1.1)
+      have hn := nameB_dollar_free n h.1.1
       cases fm with
       | none =>
         rw [render_ref_none, show n ++ '}' :: renderFormat rest = (n ++ ['}']) ++ renderFormat rest by simp, ndw_ref]
